@@ -342,8 +342,14 @@ func (h *harness) crashcheck(k int) (event, error) {
 	for _, o := range robs {
 		byID[o.id] = o
 	}
-	withBatch := append(append([]string(nil), h.done...), h.importBatchIfRunning(live)...)
-	tDone, tBatch := truthOf(h.pcaps, h.done, nil), truthOf(h.pcaps, withBatch, nil)
+	// the import job that is parked may have processed any prefix of its batch (a file that is not a capture stops
+	// it): the recovered service may show the completed imports alone or together with any such prefix
+	batch := h.importBatchIfRunning(live)
+	tDone := truthOf(h.pcaps, h.done, nil)
+	tPrefixes := []map[int]*flowTruth{}
+	for k := 1; k <= len(batch); k++ {
+		tPrefixes = append(tPrefixes, truthOf(h.pcaps, append(append([]string(nil), h.done...), batch[:k]...), nil))
+	}
 	cutIndex := strings.HasPrefix(cut, "index/") && strings.HasSuffix(strings.SplitN(cut, "@", 2)[0], ".idx")
 	for _, lo := range liveObs {
 		ro, ok := byID[lo.id]
@@ -355,7 +361,12 @@ func (h *harness) crashcheck(k int) (event, error) {
 		}
 		fl := flowOfPort(lo.cport)
 		okDone := tDone[fl] != nil && ro.cdata == tDone[fl].cdata && ro.sdata == tDone[fl].sdata
-		okBatch := tBatch[fl] != nil && ro.cdata == tBatch[fl].cdata && ro.sdata == tBatch[fl].sdata
+		okBatch := false
+		for _, tb := range tPrefixes {
+			if tb[fl] != nil && ro.cdata == tb[fl].cdata && ro.sdata == tb[fl].sdata {
+				okBatch = true
+			}
+		}
 		if !okDone && !okBatch && !cutIndex {
 			h.complain("C12", "stream %d after restart (cut %q) has data %q/%q, completed imports give %q/%q", lo.id, cut, ro.cdata, ro.sdata, tDone[fl].cdata, tDone[fl].sdata)
 		}
@@ -402,7 +413,13 @@ func (h *harness) crashcheck(k int) (event, error) {
 	//     shutdown and a second restart must show that call and everything that was there before it
 	if cut == "" {
 		const after = "tag/zzafter"
-		if err := rh.mgr.AddTag(after, "sport:2999", "#123456"); err == nil {
+		// every second experiment makes one more acknowledged call before the clean shutdown; the others shut down
+		// at once: what the first restart showed must then be there again (nothing may depend on a later save)
+		var err error
+		if h.lineNo%2 == 0 {
+			err = rh.mgr.AddTag(after, "sport:2999", "#123456")
+		}
+		if err == nil {
 			want := map[string]string{}
 			for _, t := range rh.mgr.ListTags() {
 				want[t.Name] = t.Definition + "|" + t.Color + "|" + strings.Join(t.Converters, ",")
